@@ -902,10 +902,12 @@ theorem Good.runCall {t t' : Txn} {nu nu' : Nu} {c : Call} {r : Reply}
     simp only at e
     split at e
     · cases e
-    · rename_i t nu he
-      simp only [Except.ok.injEq, Prod.mk.injEq] at e
-      obtain ⟨rfl, rfl, _⟩ := e
-      exact (Good.txn_drop g0 he)
+    · split at e
+      · cases e
+      · rename_i t nu he
+        simp only [Except.ok.injEq, Prod.mk.injEq] at e
+        obtain ⟨rfl, rfl, _⟩ := e
+        exact (Good.txn_drop g0 he)
   | dropDatabase db =>
     simp only at e
     split at e
